@@ -15,6 +15,10 @@ type BasicPrivateIssuer struct {
 }
 
 func NewBasicPrivateIssuer(key *oprf.PrivateKey) *BasicPrivateIssuer {
+	// The VOPRF key caches its public key on first use without synchronization.
+	// Compute it here so that the issuer is read-only once constructed.
+	key.Public()
+
 	return &BasicPrivateIssuer{
 		tokenKey: key,
 	}
